@@ -103,3 +103,32 @@ Theorem C17_source_msb :
   (forall v, v < 2 ^ 128 -> g_msb_u128 v = msb_w 128 v).
 Proof. exact (conj g_msb_u8_ok (conj g_msb_u16_ok (conj g_msb_u32_ok (conj g_msb_u64_ok g_msb_u128_ok)))). Qed.
 Print Assumptions C17_source_msb.
+
+(* ---- msb at a symbolic element width and stable_partition_of_4 REGENERATED from src/utils/mod.rs on every run (T5,
+   Gen/FnsUtils.v; the partition as it is written: four local vectors filled in one pass, then copied back over the slice):
+   equal to the hand model, faults included, and hence the contracts above hold of the regenerated functions. *)
+From QwtModel Require Import Loops FnsUtils FnsQvbOk.
+Theorem C17_source_msb_generic : forall wT v, QWTP.width_ok wT -> v < 2 ^ wT -> g_msb wT v = Val (msb v).
+Proof. exact g_msb_ok. Qed.
+Print Assumptions C17_source_msb_generic.
+Theorem C17_source_msb_contract : forall wT v, QWTP.width_ok wT -> v < 2 ^ wT ->
+  g_msb wT v = Val (if v =? 0 then 0 else N.log2 v) /\ (v <> 0 -> 2 ^ N.log2 v <= v < 2 ^ (N.log2 v + 1)).
+Proof. exact g_msb_spec. Qed.
+Print Assumptions C17_source_msb_contract.
+Theorem C17_source_partition4_eq : forall wT seq shift, len seq < 2 ^ 64 ->
+  g_stable_partition_of_4 wT seq shift = stable_partition_of_4 wT seq shift.
+Proof. exact g_stable_partition_of_4_ok. Qed.
+Print Assumptions C17_source_partition4_eq.
+Theorem C17_source_partition4 : forall wT seq shift, QWTP.width_ok wT -> shift < wT ->
+  Forall (fun x => x < 2 ^ wT) seq -> len seq < 2 ^ 64 ->
+  g_stable_partition_of_4 wT seq shift =
+  Val (concat (map (fun d => filter (fun x => (x / 2 ^ shift) mod 4 =? d) seq) [0;1;2;3])).
+Proof. exact g_stable_partition_of_4_spec. Qed.
+Print Assumptions C17_source_partition4.
+Theorem C17_source_partition4_contract : forall wT seq shift, QWTP.width_ok wT -> shift < wT ->
+  Forall (fun x => x < 2 ^ wT) seq -> len seq < 2 ^ 64 ->
+  exists out, g_stable_partition_of_4 wT seq shift = Val out /\ Permutation seq out /\
+    StronglySorted (fun x y => (x / 2 ^ shift) mod 4 <= (y / 2 ^ shift) mod 4) out /\
+    forall d, filter (fun x => (x / 2 ^ shift) mod 4 =? d) out = filter (fun x => (x / 2 ^ shift) mod 4 =? d) seq.
+Proof. exact g_stable_partition_of_4_contract. Qed.
+Print Assumptions C17_source_partition4_contract.
